@@ -18,7 +18,7 @@ def extra(prog, tr):
         for o in sc["body"]:
             if o["op"] == "collect":
                 col[s] = list(o["expected"])
-    return {"collect": col}
+    return {"collect": col, "equal": any(o.get("same") for sc in prog["steps"].values() for o in sc["body"] if o["op"] == "send")}
 
 
 def key_of(clause, label, prog, tr, l):
@@ -38,5 +38,8 @@ def keep(r):
 
 
 def run(chk):
-    eg.standard_run(chk, "C09", ["collect", "fanout"], {"step_start", "step_end", "collect_ret", "drained"}, key_of=key_of,
-                    nontrivial=nontrivial, extra=extra, keep=keep)
+    items = eg.collect(chk, ["collect", "fanout"])
+    # three identical votes: a repeated-type expected list filled with equal-valued events
+    items += eg.collect(chk, ["collect_equal"], paths_q=10, walks_q=3, paths_t=40, walks_t=10)
+    eg.standard_run(chk, "C09", None, {"step_start", "step_end", "collect_ret", "drained"}, key_of=key_of,
+                    nontrivial=nontrivial, extra=extra, keep=keep, items=items)
